@@ -9,7 +9,7 @@ DEFAULT = dict(
     AckMode='"shaped"', ThrMode='"fixed"', EmptyMode='"fixed"',
     CfgSet="OneCfg", SameCfg="TRUE", Openers='{"A"}', MaxOpens=1, Ids="{1}", Hosts='{"h0"}',
     MaxWrites=0, Lens="{1}", ReadMax="{4}", Closers="{}", MuxDroppers="{}", DgSenders="{}", MaxDgrams=0,
-    Binders="{}", MaxBinds=0, Faults="{}", AdvMsgs="{}", MaxAdv=0, MaxHandles=2, MaxCtr=3,
+    Binders="{}", MaxBinds=0, Faults="{}", AdvMsgs="{}", MaxAdv=0, Bridgers="{}", MaxHandles=2, MaxCtr=3,
 )
 INV = "NoViolation TypeOK AckSound QueueBound InitialCredit ExactlyOne TargetCarried BoundedRetry Released DoneResolved"
 
@@ -37,6 +37,9 @@ CONFIGS = {
     # C15: bind requests, every answer
     "MC_Bind_q": dict(CfgSet="BindCfgs", Binders='{"A"}', MaxBinds=2, MaxCtr=2, MaxOpens=0, Ids="{1, 2}"),
     "MC_Bind": dict(CfgSet="BindCfgs", Binders='{"A", "B"}', MaxBinds=2, MaxCtr=3, MaxOpens=0, Ids="{1, 2}", MuxDroppers='{"B"}'),
+    # C13: the acceptor bridges its stream to a scripted local side; every environment at every poll
+    "MC_Bridge_q": dict(CfgSet="TinyCfg", MaxWrites=1, Bridgers='{"B"}', Closers='{"A"}', MaxHandles=1, MaxCtr=1),
+    "MC_Bridge": dict(CfgSet="CloseCfgs", MaxWrites=2, Bridgers='{"A", "B"}', Closers='{"A"}', MaxHandles=1, MaxCtr=1),
     # C10: adversary frames towards A while a well-behaved stream runs
     "MC_Adv_q": dict(CfgSet="TinyCfg", MaxWrites=1, AdvMsgs="AdvSet", MaxAdv=2, MaxHandles=2, MaxCtr=1),
     "MC_Adv": dict(CfgSet="TinyCfg", MaxWrites=1, AdvMsgs="AdvSet", MaxAdv=3, MaxHandles=2, MaxCtr=1, Closers='{"A"}'),
